@@ -65,3 +65,36 @@ pub fn hash_hook(data: &[u8]) -> Option<String> {
 
 pub fn hash_inputs() -> &'static Vec<Vec<u8>> { unsafe { &HASH_INPUTS } }
 pub fn hash_digests() -> &'static Vec<String> { unsafe { &HASH_DIGESTS } }
+
+// ------------------------------------------------------------------------------------------------
+// Disclosure hook: stands in for SDJWTDisclosure::new (salt + JSON text + base64 + SHA-256) when a
+// harness about the MARKING logic switches it on. The n-th disclosure gets the opaque text "r<n>"
+// and the ideal-hash digest of that text; (name?, value) are logged so that the harness can state
+// which claims were turned into disclosures.
+pub static mut DISC_ON: bool = false;
+pub static mut DISC_NAMES: ManuallyDrop<Vec<Option<String>>> = ManuallyDrop::new(Vec::new());
+pub static mut DISC_VALUES: ManuallyDrop<Vec<serde_json::Value>> = ManuallyDrop::new(Vec::new());
+pub static mut DISC_HASHES: ManuallyDrop<Vec<String>> = ManuallyDrop::new(Vec::new());
+
+pub fn disclosure_on() { unsafe { DISC_ON = true; } }
+
+pub fn disclosure_hook(key: &Option<String>, value: *const (), type_name: &'static str) -> Option<crate::disclosure::SDJWTDisclosure> {
+    unsafe {
+        if !DISC_ON { return None; }
+        let n = DISC_NAMES.len();
+        let mut raw: Vec<u8> = Vec::with_capacity(2);
+        raw.push(b'r');
+        raw.push(b'0' + (n % 10) as u8);
+        let hash = match hash_hook(&raw) { Some(h) => h, None => return None };
+        DISC_NAMES.push(match key { Some(k) => Some(k.clone()), None => None });
+        if type_name == std::any::type_name::<serde_json::Value>() {
+            // SAFETY: V is serde_json::Value (same type name)
+            let v: &serde_json::Value = &*(value as *const serde_json::Value);
+            DISC_VALUES.push(v.clone());
+        } else {
+            DISC_VALUES.push(serde_json::Value::Null);
+        }
+        DISC_HASHES.push(hash.clone());
+        Some(crate::disclosure::SDJWTDisclosure { raw_b64: String::from_utf8_unchecked(raw), hash })
+    }
+}
